@@ -62,12 +62,16 @@ Definition hex_digit (n : Z) : Z := if n <? 10 then 48 + n else 87 + n.
 Fixpoint hex_of (l : list Z) : list Z :=
   match l with [] => [] | c :: r => hex_digit (c / 16) :: hex_digit (c mod 16) :: hex_of r end.
 
+(* every reply is  header + body + ' ' + cmd_id + tail *)
+Definition gaia_frame (body cid : list Z) : list Z := [35] ++ body ++ [32] ++ cid ++ [10].
+
 (* f'#ERROR({code})[{name}]({hex!r-of-bytes}) {cmd_id}\n'  -- the hex string is a bytes object, so
    the f-string renders it as b'...' *)
-Definition gaia_error (code : Z) (cmd_id : list Z) : list Z :=
+Definition gaia_error_body (code : Z) : list Z :=
   let name := gaia_error_name code in
-  [35; 69; 82; 82; 79; 82; 40] ++ render_int code ++ [41; 91] ++ name ++ [93; 40; 98; 39]
-  ++ hex_of name ++ [39; 41; 32] ++ cmd_id ++ [10].
+  [69; 82; 82; 79; 82; 40] ++ render_int code ++ [41; 91] ++ name ++ [93; 40; 98; 39]
+  ++ hex_of name ++ [39; 41].
+Definition gaia_error (code : Z) (cmd_id : list Z) : list Z := gaia_frame (gaia_error_body code) cmd_id.
 
 Record gdev := { vd : list Z; vg : list Z; conf : Z; cmd_id : list Z }.
 Definition gaia_dev0 : gdev := {| vd := repeat 0 10; vg := repeat 0 10; conf := 0; cmd_id := [] |}.
@@ -75,7 +79,7 @@ Definition gaia_dev0 : gdev := {| vd := repeat 0 10; vg := repeat 0 10; conf := 
 Definition with_id (d : gdev) (i : list Z) : gdev :=
   {| vd := vd d; vg := vg d; conf := conf d; cmd_id := i |}.
 
-Definition gaia_reply (raw : list Z) (d : gdev) : list Z := [35] ++ raw ++ [32] ++ cmd_id d ++ [10].
+Definition gaia_reply (raw : list Z) (d : gdev) : list Z := gaia_frame raw (cmd_id d).
 
 (* Python list indexing with a possibly negative index *)
 Definition gpy_index (l : list Z) (i : Z) : option nat :=
@@ -135,46 +139,62 @@ Definition gaia_handle (temp : Z) (k : gkind) (d : gdev) (args : list Z) : gdev 
 Definition mid_last (args : list (list Z)) : list (list Z) * list Z :=
   (removelast (tl args), last args []).
 
-Definition gaia_exec (temp : Z) (d : gdev) (msg : list Z) : gdev * outcome :=
-  let args := split_ws (strip (lstrip_ch 35 msg)) in
+(* the validation part of _execute depends on the message only *)
+Inductive gdecode :=
+| DEmpty                                         (* no token: error 1000, previous id *)
+| DUnknown                                       (* unknown command: error 1001, previous id *)
+| DErr (code : Z) (cid : list Z)                 (* refused after self.cmd_id was set *)
+| DOk (k : gkind) (args : list Z) (cid : list Z).
+
+Definition gaia_tokens (msg : list Z) : list (list Z) := split_ws (strip (lstrip_ch 35 msg)).
+
+Definition gaia_in_first (k : gkind) (x : Z) : bool :=
+  match k with
+  | KGetref | KGetemp => (x =? 1) || (x =? 2)
+  | _ => (1 <=? x) && (x <? 11)
+  end.
+
+Definition gaia_decode (args : list (list Z)) : gdecode :=
   match args with
-  | [] => (d, OReply (gaia_error 1000 (cmd_id d)))
+  | [] => DEmpty
   | a0 :: _ =>
       match gaia_lookup gaia_table a0 with
-      | None => (d, OReply (gaia_error 1001 (cmd_id d)))
+      | None => DUnknown
       | Some (k, l) =>
           let (margs, cid) := mid_last args in
-          let d1 := with_id d cid in
-          let err c := (d1, OReply (gaia_error c cid)) in
-          if l <? Z.of_nat (length margs) then err 1015
-          else if l =? 0 then gaia_handle temp k d1 []
+          if l <? Z.of_nat (length margs) then DErr 1015 cid
+          else if l =? 0 then DOk k [] cid
           else
             match margs with
-            | [] => err 1004
+            | [] => DErr 1004 cid
             | t0 :: rest =>
                 match parse_int t0 with
-                | None => err 1002
+                | None => DErr 1002 cid
                 | Some x =>
-                    let in_first := match k with
-                                    | KGetref | KGetemp => (x =? 1) || (x =? 2)
-                                    | _ => (1 <=? x) && (x <? 11)
-                                    end in
-                    if negb in_first then err 1003
+                    if negb (gaia_in_first k x) then DErr 1003 cid
                     else if l =? 2 then
                       match rest with
-                      | [] => err 1008
+                      | [] => DErr 1008 cid
                       | t1 :: _ =>
                           match parse_int t1 with
-                          | None => err 1009
+                          | None => DErr 1009 cid
                           | Some y =>
-                              if negb ((0 <=? y) && (y <? 1024)) then err 1010
-                              else gaia_handle temp k d1 [x; y]
+                              if negb ((0 <=? y) && (y <? 1024)) then DErr 1010 cid
+                              else DOk k [x; y] cid
                           end
                       end
-                    else gaia_handle temp k d1 [x]
+                    else DOk k [x] cid
                 end
             end
       end
+  end.
+
+Definition gaia_exec (temp : Z) (d : gdev) (msg : list Z) : gdev * outcome :=
+  match gaia_decode (gaia_tokens msg) with
+  | DEmpty => (d, OReply (gaia_error 1000 (cmd_id d)))
+  | DUnknown => (d, OReply (gaia_error 1001 (cmd_id d)))
+  | DErr c cid => (with_id d cid, OReply (gaia_error c cid))
+  | DOk k args cid => gaia_handle temp k (with_id d cid) args
   end.
 
 (* the framer: no length bound; a byte that leaves msg not starting with '#' resets and returns True *)
